@@ -206,7 +206,8 @@ fn expect_of(r: &Rec) -> Expect {
     };
     for l in &r.lines {
         match &l.item {
-            Item::Scalar { key, val } => e.scalars[*key] = Some(val.clone()),
+            // blanks right after '=' belong to the value's surroundings: "the trimmed value"
+            Item::Scalar { key, val } => e.scalars[*key] = Some(val.trim_matches([' ', '\t']).to_string()),
             Item::Location { good } => e.location = Some(GOOD_LOCATIONS[*good].1.to_string()),
             Item::AllDepends { items, .. } => {
                 e.all_depends = items
@@ -380,7 +381,12 @@ fn gen_line(rng: &mut Rng, used_lists: &mut [bool; 3]) -> Line {
     let item = match rng.below(16) {
         0..=6 => Item::Scalar {
             key: rng.urange(1, 10),
-            val: gen_value(rng),
+            // now and then ASCII blanks between '=' and the value
+            val: if rng.chance(1, 6) {
+                format!("{}{}", rng.pick_str(&[" ", "\t", "  ", " \t "]), gen_value(rng))
+            } else {
+                gen_value(rng)
+            },
         },
         7 => Item::Location {
             good: rng.usize_below(GOOD_LOCATIONS.len()),
